@@ -372,6 +372,8 @@ type runCfg struct {
 	prior    *runCfg
 	cleanDir bool
 	hist     *synth.Hist // of a prior run: the history it analyses (nil: the history of the case)
+	samePipe bool        // of a prior run: the run of the case re-uses the Pipeline object as well (then hist is nil)
+	upto     int         // of a prior run: > 0: it analyses only the first upto commits (a parent-closed prefix)
 }
 
 func (cfg runCfg) optsSx() []Sx {
@@ -527,9 +529,8 @@ func doRun(h *synth.Hist, G, S int, cfg runCfg) (ro runObs) {
 		dump = append(dump, d)
 	})
 	defer vc09.SetPlanPrinter(old)
-	// ONE BurndownAnalysis instance for all phases of the run (kind rerun: a prior run on the same item).  Every phase
-	// gets a pipeline of its own: a second Run of one Pipeline fails in TreeDiff whatever the hibernation settings
-	// (TreeDiff.Initialize does not reset previousCommit), which is not a matter of this property.
+	// ONE BurndownAnalysis instance for all phases of the run (kind rerun: a prior run on the same item); the phases share
+	// the Pipeline object as well (prior.samePipe) or each gets a fresh one around the same item.
 	var item hercules.LeafPipelineItem
 	if cfg.wrap {
 		item = &wrap{inner: &leaves.BurndownAnalysis{}, rec: rec}
@@ -615,12 +616,14 @@ func doRun(h *synth.Hist, G, S int, cfg runCfg) (ro runObs) {
 			rec.hibAt = map[int][]string{}
 		}
 		dump, livePlan = nil, nil
-		p = hercules.NewPipeline(repo)
-		leaf = p.DeployItem(item).(hercules.LeafPipelineItem)
-		if cfg.tamper != nil {
-			p.DeployItem(&tamperItem{rec: rec})
+		if p == nil || cfg.prior == nil || !cfg.prior.samePipe {
+			p = hercules.NewPipeline(repo)
+			leaf = p.DeployItem(item).(hercules.LeafPipelineItem)
+			if cfg.tamper != nil || (cfg.prior != nil && cfg.prior.tamper != nil) {
+				p.DeployItem(&tamperItem{rec: rec})
+			}
+			p.OnProgress = onProgress
 		}
-		p.OnProgress = onProgress
 		facts := map[string]interface{}{
 			hercules.ConfigPipelineCommits:            commits,
 			leaves.ConfigBurndownGranularity:          G,
@@ -704,8 +707,15 @@ func doRun(h *synth.Hist, G, S int, cfg runCfg) (ro runObs) {
 		pc := *cfg.prior
 		pc.wrap, pc.noFiles, pc.noPeople = cfg.wrap, cfg.noFiles, cfg.noPeople
 		prepo, pcommits := repo, commits
-		if pc.hist != nil {
+		if pc.hist != nil && !pc.samePipe {
 			prepo, pcommits = buildHist(pc.hist)
+		}
+		if pc.upto > 0 && pc.upto < len(pcommits) {
+			pcommits = pcommits[:pc.upto]
+		}
+		if pc.samePipe {
+			// the pipeline of the prior phase is the one the run of the case uses again
+			pc.prior = &runCfg{samePipe: true, tamper: pc.tamper}
 		}
 		ro.prior, _ = phase(pc, prepo, pcommits)
 		ro.priorLeft = len(rec.list())
@@ -883,9 +893,17 @@ func emitCase(c *Config, in caseIn) { emitCaseWith(c, in, nil) }
 func emitCaseWith(c *Config, in caseIn, pre *runObs) {
 	hsx := histSx(in.h)
 	key := hsx.String() + fmt.Sprint(in.G, in.S, in.cfg.noFiles, in.cfg.noPeople)
+	// The run without hibernation.  When the run of the case re-uses a Pipeline object (kind rerun, prior.samePipe) the
+	// twin does the same without hibernation: the other items of a re-used pipeline keep state of their own (the people
+	// dictionary of the identity detector is not regenerated, for one), which is not a matter of this property.
+	baseCfg := runCfg{wrap: false, noFiles: in.cfg.noFiles, noPeople: in.cfg.noPeople}
+	if pc := in.cfg.prior; pc != nil && pc.samePipe {
+		baseCfg.prior = &runCfg{fault: "none", samePipe: true, upto: pc.upto}
+		key += fmt.Sprint(" samepipe ", pc.upto)
+	}
 	base, ok := baseCache[key]
 	if !ok {
-		base = doRun(in.h, in.G, in.S, runCfg{wrap: false, noFiles: in.cfg.noFiles, noPeople: in.cfg.noPeople})
+		base = doRun(in.h, in.G, in.S, baseCfg)
 		if len(baseCache) > 4 {
 			baseCache = map[string]runObs{}
 		}
@@ -912,7 +930,7 @@ func emitCaseWith(c *Config, in caseIn, pre *runObs) {
 		}
 		for baseRetries < tries && planSx(base.plan, base.commits).String() != want {
 			baseRetries++
-			base = doRun(in.h, in.G, in.S, runCfg{wrap: false, noFiles: in.cfg.noFiles, noPeople: in.cfg.noPeople})
+			base = doRun(in.h, in.G, in.S, baseCfg)
 		}
 	}
 	rec := ro.rec
@@ -988,6 +1006,12 @@ func parseCase(s Sx) caseIn {
 		pc := &runCfg{dist: g("dist").Args()[0].Int(), thr: g("thr").Args()[0].Int(), disk: g("disk").Args()[0].Int() != 0,
 			cleanDir: g("clean").Args()[0].Int() != 0}
 		parseFault(g("fault"), pc)
+		if x, ok := pr.Field("samepipe"); ok {
+			pc.samePipe = x.Args()[0].Int() != 0
+		}
+		if x, ok := pr.Field("upto"); ok {
+			pc.upto = x.Args()[0].Int()
+		}
 		if hs, ok := pr.Field("hist"); ok {
 			if vh, ok := viewFromSx(hs); ok {
 				pc.hist = mkView(vh)
